@@ -126,6 +126,21 @@ def job_family(args):
     return out
 
 
+def job_ties(args):
+    """tracks of 17 to 40 fixes (beyond the size up to which sorting routines keep ties in place) with one or several repeated
+    timestamps, at every position"""
+    n, = args
+    out = []
+    pts = walk(tuple(LEGS[(3 * k + 1) % 6] for k in range(n)))[:n]
+    for k in range(1, n):
+        ts = list(range(k)) + [k - 1] + list(range(k, n - 1))          # fix k repeats the timestamp of fix k - 1
+        out.append(call(pts, ts[:n]))
+    for k in range(1, n - 3, 3):
+        ts = list(range(k)) + [k - 1, k - 1, k - 1] + list(range(k, n))
+        out.append(call(pts, ts[:n]))
+    return out
+
+
 def job_ms(args):
     """millisecond clocks: every walk of n legs (without the 1000-long leg) x gaps {0,1,2} ticks of 1 ms, once around 1970
     (float clock exact: values judged) and once in 2020 (float clock noisy at that scale: NaN pattern judged)"""
@@ -184,6 +199,8 @@ def run(ctx):
             jobs.append((job_ms, (n, first)))
     for k in range(16):
         jobs.append((job_random, (ctx.seed * 59 + k, 80 if quick else 8000)))
+    for n in (17, 24) if quick else (17, 18, 24, 33, 40):
+        jobs.append((job_ties, (n,)))
     events = []
     with mp.get_context("fork").Pool(16, initializer=core._pool_init, initargs=(None,)) as pool:
         res = [pool.apply_async(f, (a,)) for f, a in jobs]
